@@ -126,6 +126,10 @@ def sqlite_contracts(reg: Registry):
             ("writes-only-when-it-reports-success", lambda c: z3.Implies(z3.Not(c.result), T_(not writes(c)))),
             ("on-success-one-claim-row-for-this-run-id-committed", lambda c: z3.Implies(c.result, T_(
                 len(writes(c)) == 1 and writes(c)[0]["kind"] == "INSERT" and any(e.get("ev") == "commit" for e in all_events(c.st))) if True else T_(False))),
+            # the claim may be re-taken after it expired: the row of the run id exists then, and the new expiration has to replace the old one
+            ("a-re-taken-claim-replaces-the-expired-row(INSERT OR REPLACE / ON CONFLICT DO UPDATE)", lambda c: z3.Implies(c.result, T_(
+                len(writes(c)) == 1 and (" OR REPLACE " in " " + " ".join(writes(c)[0]["info"]["text"].upper().split()) + " "
+                                         or "DO UPDATE" in " ".join(writes(c)[0]["info"]["text"].upper().split()))))),
         ]), Case("commit-fault", raises="OperationalError", ensures=[("ownership", ownership)])], properties=[PID])
     reg.sql_commit_faults = True
     for c in (cas, claim):
